@@ -186,7 +186,10 @@ func (t inProcess) RoundTrip(req *http.Request) (*http.Response, error) {
 	sreq.Body = io.NopCloser(bytes.NewReader(body))
 	c := &capture{Method: sreq.Method, URI: sreq.RequestURI, Header: sreq.Header.Clone(), Body: string(body)}
 	rec := httptest.NewRecorder()
-	t.w.handler.ServeHTTP(rec, sreq)
+	if p, pv, st := hx.Try(func() { t.w.handler.ServeHTTP(rec, sreq) }); p {
+		// a panic escaping ServeHTTP: with a real server net/http would abort the connection
+		return nil, &serverCrash{value: fmt.Sprint(pv), stack: st}
+	}
 	res := rec.Result()
 	res.Request = req
 	rb, _ := io.ReadAll(res.Body)
@@ -196,6 +199,28 @@ func (t inProcess) RoundTrip(req *http.Request) (*http.Response, error) {
 		t.cap(c)
 	}
 	return res, nil
+}
+
+type serverCrash struct{ value, stack string }
+
+func (s *serverCrash) Error() string {
+	return "the server handler panicked outside of any recover (a real connection would be aborted): " + s.value + "\n" + trimStack(s.stack)
+}
+
+func trimStack(st string) string {
+	var keep []string
+	for _, l := range strings.Split(st, "\n") {
+		if strings.Contains(l, "go-restli") && !strings.HasPrefix(l, "\t") {
+			if i := strings.LastIndex(l, "("); i > 0 {
+				l = l[:i]
+			}
+			keep = append(keep, "   at "+strings.TrimSpace(l))
+		}
+		if len(keep) >= 6 {
+			break
+		}
+	}
+	return strings.Join(keep, "\n")
 }
 
 type clientConfig struct {
@@ -248,4 +273,11 @@ func getWorld(mount string) *world {
 	}
 	w, _ := worlds.LoadOrStore(mount, newWorld(mount))
 	return w.(*world)
+}
+
+func min3(n int) int {
+	if n > 3 {
+		return 3
+	}
+	return n
 }
